@@ -218,7 +218,7 @@ def check_C13(tier, seed):
     os.remove(raw)
     q = tier == "quick"
     run_pipeline(res, binary, "defects", gen_lines=gens.gen_c13(rng, 3000 if q else 60000), nshards=8 if q else 16)
-    run_pipeline(res, binary, "junction", gen_lines=itertools.chain(gens.gen_c13_long_designations(), gens.gen_extreme_leap_pairs(), gens.gen_c13_leap_rule_junction(rng, 60 if q else 1500)), nshards=6 if q else 16, min_events=150)
+    run_pipeline(res, binary, "junction", gen_lines=itertools.chain(gens.gen_c13_long_designations(), gens.gen_extreme_leap_pairs(), gens.gen_c13_leap_rule_junction(rng, 60 if q else 1500), gens.gen_c13_leap_defect_rule_junction(rng, 60 if q else 1500)), nshards=6 if q else 16, min_events=150)
     res.notes["rule"] = "vectors: every small zone tuple of MC_Validity (valid ones and each defect); events: seeded valid zones with exactly one defect of each kind (index, order, leap table, rule disagreement in one attribute, i64 extremes), local time types over length 0..9 designations"
     return res.finish()
 
